@@ -144,7 +144,7 @@ def assemble_data(model, case, aux_override=None):
     return main + aux
 
 
-def check_case(pyhf, case, backend, precision, props, rng, model_cache, extra_batch=False):
+def check_case(pyhf, case, backend, precision, props, rng, model_cache, extra_batch=False, ainv=None):
     """Returns (findings, drift list, stats dict)."""
     import leaf
 
@@ -359,6 +359,46 @@ def check_case(pyhf, case, backend, precision, props, rng, model_cache, extra_ba
             if badbs and not bad:
                 F.append(Finding("C01", "per-sample expected data differs from the HistFactory formula",
                                  {"case": slim, "pars": pars, "mismatch": badbs}, tags_base + ["bysample"]))
+
+    # ---------------- C01, symbolic lane: normsys at non-integer alpha (inside and outside the code-4 core)
+    if "C01" in props and case.get("sym") and ainv:
+        import leaf as _leaf
+        import interp as _interp
+        sym = case["sym"][0]
+        spars = assemble_pars(model, sym["theta"])
+        ncode = case["setting"]["ncode"]
+        try:
+            gots = tl.tolist(model.expected_actualdata(spars))
+        except Exception as e:  # noqa: BLE001
+            F.append(Finding("C01", f"evaluation failed (symbolic lane): {type(e).__name__}: {e}", {"case": slim}, tags_base + ["evalfail", "symbolic"]))
+            gots = None
+        if gots is not None:
+            def atom(a):
+                al, lo, hi = frac(a["alpha"]), a["lo"], a["hi"]
+                if ncode == 1 or abs(al) >= 1:
+                    e = {"kind": "pow", "base": hi if al >= 0 else lo, "exp": [abs(al).numerator, abs(al).denominator]}
+                else:
+                    e = {"kind": "poly4", "up": hi, "dn": lo, "a": a["alpha"], "a0": [1, 1]}
+                return _interp.expected_value(e, ainv)
+            bads = []
+            for ch in sym["chans"]:
+                sl = cfg.channel_slices[names.CHANNELS[ch["name"]]]
+                exp = []
+                for b in ch["bins"]:
+                    tot = _leaf.mp.mpf(0)
+                    for smp in b:
+                        v = _leaf.mpf(frac(smp["coef"]))
+                        for a in smp["atoms"]:
+                            v *= atom(a)
+                        tot += v
+                    exp.append(float(tot))
+                g = gots[sl]
+                stol = 1e-11 if precision == "64b" else 3e-5
+                if len(g) != len(exp) or any(abs(x - e) > stol * max(1.0, abs(e)) for x, e in zip(g, exp)):
+                    bads.append({"channel": names.CHANNELS[ch["name"]], "got": g, "expected": exp})
+            if bads:
+                F.append(Finding("C01", "expected_actualdata differs from the HistFactory rate formula at a non-integer normsys alpha (symbolic lane)",
+                                 {"case": slim, "pars": spars, "mismatch": bads}, tags_base + ["rates", "symbolic"]))
 
     # ---------------- C02: log-likelihood = sum of leaf terms
     if "C02" in props:
